@@ -224,6 +224,9 @@ func (g *Generator) Generate(dict *dictionary.Dictionary) ([]byte, error) {
 		})
 	}
 	dictionary.SortVendors(vendors)
+	if len(vendors) > 0 {
+		baseImports["errors"] = struct{}{}
+	}
 
 	var w bytes.Buffer
 
